@@ -931,10 +931,17 @@ def check(ctx):
         if 'fermion' in stages:
             ff = [ex.submit(tlc.mc, 'Fermion', ferm_cfg(L, K, names, maxlen), dump=True, workers=6, coverage=False)
                   for (L, K, names, maxlen, share) in fermion_configs(ctx)]
-        if fs is not None:
-            run_sites(ctx, fs)
-        if ff is not None:
-            run_fermion(ctx, ff)
+        try:
+            if fs is not None:
+                run_sites(ctx, fs)
+            if ff is not None:
+                run_fermion(ctx, ff)
+        finally:      # never leave TLC scratch directories behind, whatever happened above
+            for f in ([fs] if fs is not None else []) + (ff or []):
+                try:
+                    shutil.rmtree(f.result()[2], ignore_errors=True)
+                except Exception:  # noqa
+                    pass
     ctx.exhaustive = ctx.tier != 'quick'
     ctx.notes['replay_sampling'] = ('every TLC state is model-checked and replayed through the cheap routes (site tables; '
                                     'order_combine_term/handle_JW); the expensive routes (MPO, CouplingModel, MPS, GroupedSite chains) and, '
